@@ -875,8 +875,10 @@ def main():
     os.makedirs(os.path.dirname(OUT), exist_ok=True)
     old = open(OUT).read() if os.path.exists(OUT) else None
     if old != txt:
-        with open(OUT, "w") as f:
+        _tmp = OUT + ".tmp%d" % os.getpid()
+        with open(_tmp, "w") as f:
             f.write(txt)
+        os.replace(_tmp, OUT)  # atomic: a concurrent coqc never sees a partial file
     return {"sha256": sha, "functions": len(ORDER) + 4, "si": tr.used_si, "constants": tr.used_consts,
             "units": tr.used_units, "sn_cutoff": cutoff,
             "assumed_asserts": tr.assumed}
